@@ -1,4 +1,5 @@
 """C18 Stream adapters deliver exactly the bytes written, in order (E1: Kani, generic adapters)."""
+import mirrun
 from kanirun import H
 
 FACADE = False
@@ -11,7 +12,8 @@ FUNCS = ["bridge::io::<TokioIo<T> as hyper::rt::Read>::poll_read", "bridge::io::
 BOUNDS = ("one operation per obligation on an adapter in an arbitrary state (adapters other than Rewind are stateless, so one step covers any sequence; Rewind's state is its prefix, "
           "see C08): destination capacity c in 0..=12, pre-filled p <= 4, inner chunk k <= 8 (concrete per instance); byte values, inner readiness {Ready,Pending,Err}, "
           "write return value symbolic; unwind 14/34")
-OUTSIDE = ("enum arms over concrete tokio TcpStream/UnixStream/DuplexStream (stream::core::Braid, real sockets: tokio's I/O driver cannot be compiled by Kani), "
+OUTSIDE = ("tokio's own TcpStream/UnixStream/DuplexStream (real sockets; tokio's I/O driver cannot be compiled by Kani): stream::core::Braid and the three wrappers under it are decided "
+           "by mirsym as pure dispatch (same operation, receiver, arguments; result unchanged) down to the call into tokio, which is the environment; "
            "the TLS arms (rustls), the in-process duplex transport's buffering (tokio::io::duplex)")
 ASSUMPTIONS = ["inner streams honour the AsyncRead / hyper::rt::Read contracts (advance by what they wrote)",
                "pointer-and-length identity of the buffer handed to the inner stream implies the same bytes"]
@@ -59,3 +61,9 @@ def harnesses(tier, seed):
             hs.append(H(name=f"c18_{fam}_tlsfeat_op{op}_c{c}_p{pre}_k{k}", module=mod, call=f"{fn}({op},{c},{pre},{k})", unwind=14, family=fam, tier="thorough",
                         desc={"op": ["read", "write", "flush", "shutdown"][op], "cargo_features": "tls"}, funcs=FUNCS[fi:fi + 1], features="tls"))
     return hs
+
+
+def extra(tier, seed, log):
+    res, table = mirrun.run("C18", tier, seed, log)
+    extra.model_table = table
+    return res
